@@ -65,6 +65,12 @@ def oracle_deferred(run):
             if tid not in shared:
                 return "thread %d released a shared lock it does not hold" % tid
             shared.discard(tid)
+        elif k0 in ("mtl", "mtf") and t[1] == "qm":
+            # a try / timed acquisition of the queue mutex (not in today's code, but legal): track the holder as for mlk
+            if t[2] == "1":
+                if qm is not None:
+                    return "queue mutex granted twice"
+                qm = tid
         elif k0 == "mlk" and t[1] == "qm":
             if qm is not None:
                 return "queue mutex granted twice"
